@@ -446,6 +446,24 @@ func (wf *Workflow[I, O]) compile(ctx context.Context, options *graphCompileOpti
 			for path, v := range n.staticValues {
 				value[path] = v
 				paths = append(paths, splitFieldPath(path))
+
+				// a static value has to fit the field it is set on, like a mapped value
+				fieldType, below, err := checkAndExtractFieldType(splitFieldPath(path), wf.g.nodes[n.key].inputType())
+				if err != nil {
+					return nil, fmt.Errorf("static value check failed for node %s, path %s: %w", n.key, path, err)
+				}
+				if below {
+					continue // below an interface-typed field: only known at request time
+				}
+				if vt := reflect.TypeOf(v); vt == nil {
+					switch fieldType.Kind() {
+					case reflect.Map, reflect.Slice, reflect.Ptr, reflect.Interface:
+					default:
+						return nil, fmt.Errorf("static value check failed for node %s, path %s: nil is not assignable to %v", n.key, path, fieldType)
+					}
+				} else if !vt.AssignableTo(fieldType) {
+					return nil, fmt.Errorf("static value check failed for node %s, path %s: %v is not assignable to %v", n.key, path, vt, fieldType)
+				}
 			}
 
 			if err := n.checkAndAddMappedPath(paths); err != nil {
